@@ -345,3 +345,138 @@ class adam_update(_UpdateStep):
         return Rec("Adam", dict(_decay=S.real("decay"), _nfails=S.nat("nfails"), _rate=S.real("rate"), _total_iterations=ti,
                                 _epoch_iters=S.int("epoch_iters", 1), _beta_1=S.real("b1"), _beta_2=S.real("b2"), _epsilon=S.real("eps"),
                                 _m=mom1, _v=mom2, _m_prev=[], _v_prev=[]))
+
+
+# ----------------------------------------------------------------------------- the epoch loop
+
+F_OBJ = z3.Function("F_est", I_, R_)  # estimated objective on the fixed function sample, as a function of the factor token
+
+
+def _model(tok):
+    return Rec("ktensor", dict(factor_matrices=tok, weights=z3.Int(T.fresh_name("wtok"))))
+
+
+@register
+class stochastic_solve(Contract):
+    qual = O + "StochasticSolver.solve"
+    props = ("C13",)
+    doc = (
+        "StochasticSolver.solve (shared by SGD, Adam, Adagrad), with the numerics abstracted: a model is identified by the "
+        "token of its factor matrices, estimate(model, function sample) is an uninterpreted function F of that token, "
+        "update_step returns an arbitrary new token.  For every number of epochs, every outcome of every epoch and every "
+        "stopping pattern: the returned model is the best model seen at an epoch boundary -- F(returned) <= F(start), "
+        "F(returned) <= every entry of the reported trace, F(returned) equals one of them, trace[0] = F(start), the trace has "
+        "n_epoch + 2 entries and n_epoch < max_iters."
+    )
+    inline = ("pyttb.gcp.samplers.GCPSampler.crng",)
+
+    def setup(self, S, case):
+        me = Rec("StochasticSolver", dict(_max_iters=S.int("max_iters", 1), _epoch_iters=S.int("epoch_iters", 1), _printitn=0,
+                                          _nfails=S.nat("nfails0"), _max_fails=S.int("max_fails"), _f_est_tol=S.real("f_est_tol"),
+                                          _rate=S.real("rate"), _decay=S.real("decay")))
+        t0 = S.int("tok0")
+        from pyvc.values import Opaque
+        smp = Rec("GCPSampler", dict(_crng=Opaque("crng")))
+        return dict(__self__=me, initial_model=_model(t0), data=Opaque("data"), function_handle=Opaque("callable:f"),
+                    gradient_handle=Opaque("callable:g"), lower_bound=S.real("lb"), sampler=smp, __t0__=t0)
+
+    def abstract_calls(self, S, a):
+        from pyvc.values import Opaque
+
+        def copy(it, pos, kw, self_val):
+            """a copy is a model with the same factor token"""
+            return Rec("ktensor", dict(self_val.fields))
+
+        def estimate(it, pos, kw, self_val):
+            """objective estimate = F(factor token of the model); gradient estimate = an (empty) opaque list"""
+            if "gradient_handle" in kw:
+                return []
+            return F_OBJ(T.tz(pos[0].fields["factor_matrices"]))
+
+        def update_step(it, pos, kw, self_val):
+            """an arbitrary new factor token and an arbitrary step"""
+            return (z3.Int(T.fresh_name("tok")), T.fresh_real("step"))
+
+        def sample(it, pos, kw, self_val):
+            """an opaque (subscripts, values, weights) triple"""
+            return (Opaque("subs"), Opaque("vals"), Opaque("wgts"))
+
+        def reset(it, pos, kw, self_val):
+            """reset(): the failure counter starts at zero"""
+            self_val.fields["_nfails"] = 0
+            return None
+
+        def noop(it, pos, kw, self_val):
+            """no effect on the quantities of this contract"""
+            return None
+
+        return {
+            "pyttb.ktensor.ktensor.copy": copy, "pyttb.gcp.fg_est.estimate": estimate, O + "StochasticSolver.update_step": update_step,
+            "pyttb.gcp.samplers.GCPSampler.function_sample": sample, "pyttb.gcp.samplers.GCPSampler.gradient_sample": sample,
+            O + "StochasticSolver.reset": reset, O + "StochasticSolver.set_failed_epoch": noop,
+        }
+
+    # ---- loops: 0 = epochs, 1 = iterations of one epoch
+    @staticmethod
+    def _epoch_inv(S, a, env, i):
+        me, t0 = a["__self__"], a["__t0__"]
+        model, best = env["model"], env["best_model"]
+        tr = env["fest_trace"]
+        if not (isinstance(model, Rec) and isinstance(best, Rec) and isinstance(tr, Arr)):
+            return False
+        tb = T.tz(best.fields["factor_matrices"])
+        e = z3.Int("ep!e")
+        Fb = F_OBJ(tb)
+        return S.And(
+            # the working model and the best model are different objects (an update of one must not reach the other)
+            z3.BoolVal(model is not best),
+            T.tz(model.fields["factor_matrices"]) == tb,
+            T.tz(T.as_real(env["f_est"])) == Fb, T.tz(T.as_real(env["f_est_prev"])) == Fb,
+            Fb <= F_OBJ(t0),
+            S.eq(tr.shape[0], T.add(me.fields["_max_iters"], 1)),
+            T.tz(T.as_real(tr.fn(0))) == F_OBJ(t0),
+            T.ForAll([e], z3.Implies(z3.And(0 <= e, e <= T.tz(i)), T.tz(T.as_real(tr.fn(e))) >= Fb)),
+            T.Exists([e], z3.And(0 <= e, e <= T.tz(i), T.tz(T.as_real(tr.fn(e))) == Fb)),
+            T.tz(me.fields["_nfails"]) >= 0,
+            T.tz(env["n_epoch"]) == z3.If(T.tz(i) == 0, 0, T.tz(i) - 1),
+        )
+
+    @staticmethod
+    def _epoch_havoc(S, a, env, name):
+        me = a["__self__"]
+        if name in ("model", "best_model"):
+            return _model(z3.Int(T.fresh_name("tok")))
+        if name in ("fest_trace", "step_trace", "time_trace"):
+            return Arr.fresh(name, (T.add(me.fields["_max_iters"], 1),), "real")
+        if name == "n_epoch":
+            me.fields["_nfails"] = T.fresh_int("nfails")   # the failure counter is modified by the loop as well
+            return T.fresh_int("n_epoch")
+        return T.fresh_real(name)
+
+    @staticmethod
+    def _iter_havoc(S, a, env, name):
+        if name == "model":
+            return _model(z3.Int(T.fresh_name("tok")))
+        return T.fresh_real(name)
+
+    loops = {
+        0: dict(modifies=["model", "best_model", "fest_trace", "step_trace", "time_trace", "n_epoch", "f_est", "f_est_prev", "step"],
+                inv=lambda S, a, env, i: stochastic_solve._epoch_inv(S, a, env, i),
+                havoc=lambda S, a, env, name: stochastic_solve._epoch_havoc(S, a, env, name)),
+        1: dict(modifies=["model", "step"], inv=lambda S, a, env, i: True,
+                havoc=lambda S, a, env, name: stochastic_solve._iter_havoc(S, a, env, name)),
+    }
+
+    def ensures(self, S, a, ret):
+        me, t0 = a["__self__"], a["__t0__"]
+        yield "returns-(model, info)", z3.BoolVal(isinstance(ret, tuple) and len(ret) == 2 and isinstance(ret[0], Rec) and isinstance(ret[1], dict))
+        model, info = ret
+        Fm = F_OBJ(T.tz(model.fields["factor_matrices"]))
+        tr = info["f_est_trace"]
+        ne = T.tz(info["n_epoch"])
+        e = z3.Int("ep!e")
+        yield "no-worse-than-the-start", Fm <= F_OBJ(t0)
+        yield "trace-has-one-entry-per-completed-epoch-plus-the-start", S.And(isinstance(tr, Arr) and tr.ndim == 1, S.eq(tr.shape[0], ne + 2), 0 <= ne, ne < T.tz(me.fields["_max_iters"]))
+        yield "trace-starts-with-the-start-value", T.tz(T.as_real(tr.fn(0))) == F_OBJ(t0)
+        yield "returned-model-is-no-worse-than-any-trace-entry", T.ForAll([e], z3.Implies(z3.And(0 <= e, e < ne + 2), T.tz(T.as_real(tr.fn(e))) >= Fm))
+        yield "returned-model-attains-a-trace-entry", T.Exists([e], z3.And(0 <= e, e < ne + 2, T.tz(T.as_real(tr.fn(e))) == Fm))
